@@ -5,7 +5,7 @@ it says, per node kind and operand tags, what the result must be.  Which Rust fu
 (and in which order it receives its operands) is read from the `match self` of eval_rec on every run.
 """
 from .common import EncodingError
-from .extract import eval_arms
+from .extract import arm_application, eval_arms
 from .kani import Harness
 from .rustgen import BT, TAGS, Sym
 
@@ -404,6 +404,19 @@ def unsupported():
     return Spec("err_type(&r)", cls="unsupported")
 
 
+def apply(arm, vals):
+    """Rust expression applying the arm's operator to the given value expressions (one per evaluated sub-expression, in the
+    order of the node's fields)."""
+    app = arm_application(arm)
+    if len(app["evaluated"]) != len(vals):
+        raise EncodingError(f"arm evaluates {len(app['evaluated'])} sub-expressions, {len(vals)} operands given: {arm['text'][:80]}")
+    return "(" + app["template"].format(*vals) + ")"
+
+
+def arm_fn(arm):
+    return arm_application(arm)["fn"] or "?"
+
+
 def arg_order(arm, arity):
     """Positions in which the function receives the node's sub-expressions, from the arm text."""
     import re
@@ -420,19 +433,18 @@ def make_cell(run, arms, variant, tags, mode):
     if spec is None:
         return None
     arm = arms.get(variant)
-    if not arm or not arm["fn"] or arm["lazy"]:
-        raise EncodingError(f"node kind {variant} is not implemented by a strict operator function any more")
+    if not arm:
+        raise EncodingError(f"no eval_rec arm for node kind {variant}")
     arity = len(tags)
-    order = arg_order(arm, arity)
     dec = spec.dec
     heavy = spec.heavy
     if mode == "c01" and spec.kexp:
         dec, heavy = "scale0", True     # real dependency code instead of recorders
     syms = [Sym(tag, "ab"[i], dec=dec) for i, tag in enumerate(tags)]
     decls = "\n        ".join(s.decl for s in syms if s.decl)
-    args = ", ".join(syms[order[i]].value for i in range(arity))
+    callx = apply(arm, [s.value for s in syms])
     name = f"{mode}_{variant}_" + "_".join(tags)
-    fn = arm["fn"]
+    fn = arm_fn(arm)
     shows = "".join(f' show("{s.var}", &{s.var});' for s in syms if s.decl)
     covers = "".join(f'\n        vcover!({c}, "{l}");' for c, l in spec.covers)
     if mode == "c01":
@@ -443,7 +455,7 @@ def make_cell(run, arms, variant, tags, mode):
     body = f"""
         {decls}
         {pre if kexp else ''}
-        let r = {fn}({args});
+        let r = {callx};
         show("result", &r);{shows}{covers}
         assert!({kexp or exp});
         std::mem::forget(r);"""
@@ -452,7 +464,7 @@ def make_cell(run, arms, variant, tags, mode):
         native = f"""
         {decls}
         {pre}
-        let r = {fn}({args});
+        let r = {callx};
         show("result", &r);{shows}
         assert!({exp});
         std::mem::forget(r);"""
@@ -484,9 +496,10 @@ def index_cells(run, arms, mode):
     a step into None gives None, a step into a scalar or of the wrong kind is a type error, and with an empty
     container every step gives None."""
     arm = arms.get("Index")
-    if not arm or arm["fn"] is None:
+    if not arm:
         raise EncodingError("Index arm not recognised")
-    fn = arm["fn"]
+    fn = arm_fn(arm)
+    idx_bind = arm["binds"][1] if len(arm["binds"]) > 1 else "idx"
     hs = []
     for tag in TAGS:
         for ik, iv in (("Map", 'Index::Map(String::from("k"))'), ("Vec", "Index::Vec(inp.usize())")):
@@ -507,11 +520,12 @@ def index_cells(run, arms, mode):
                 exp = "true"
             body = f"""
         {s.decl}
-        let idx = {iv};
-        let r = {fn}({s.value}, &idx);
+        let idx_owned = {iv};
+        let {idx_bind} = &idx_owned;
+        let r = {apply(arm, [s.value])};
         show("result", &r);
         assert!({exp});
-        std::mem::forget(r); std::mem::forget(idx);"""
+        std::mem::forget(r); std::mem::forget(idx_owned);"""
             h = Harness(f"{mode}_Index_{tag}_by{ik}", body, unwind=3,
                         meta={"node": "Index", "function": fn, "operands": {"a": f"{tag}: {s.descr}", "index": ik}, "class": cls})
             h.variant, h.tags = "Index", (tag, ik)
@@ -533,19 +547,17 @@ def float_identities(run, arms):
                              ("Rem", [("nan", "a.is_nan() || b.is_nan()", "matches!(&r, Ok(Value::Float(x)) if x.is_nan())"),
                                       ("tag", "true", "matches!(&r, Ok(Value::Float(_)))")])):
         arm = arms[variant]
-        order = arg_order(arm, 2)
-        vals = ["Value::Float(a)", "Value::Float(b)"]
-        args = ", ".join(vals[order[i]] for i in range(2))
+        callx = apply(arm, ["Value::Float(a)", "Value::Float(b)"])
         for nm, pre, exp in idents:
             body = f"""
         let a = inp.f64(); let b = inp.f64();
         assume({pre});
-        let r = {arm['fn']}({args});
+        let r = {callx};
         show("a", &a); show("b", &b); show("result", &r);
         assert!({exp});
         std::mem::forget(r);"""
             h = Harness(f"c02_{variant}_Float_Float_{nm}", body, heavy=(nm in ("pow2",)), mandatory=(nm not in ("pow2", "x_rem_inf")),
-                        meta={"node": variant, "function": arm["fn"], "operands": {"a": "Float", "b": "Float"},
+                        meta={"node": variant, "function": arm_fn(arm), "operands": {"a": "Float", "b": "Float"},
                               "class": "supported", "identity": f"{pre} => {exp}"})
             h.variant, h.tags, h.spec = variant, ("Float", "Float"), Spec(exp)
             hs.append(h)
@@ -588,54 +600,48 @@ def scale0_cells(run, arms, mode):
     lim = "(1i128 << 96)"
     if mode == "c01":
         arm = arms["Mult"]
-        order = arg_order(arm, 2)
-        vals = ["Value::Decimal(a)", "Value::Decimal(b)"]
-        args = ", ".join(vals[order[i]] for i in range(2))
+        callx = apply(arm, ["Value::Decimal(a)", "Value::Decimal(b)"])
         h = Harness("c01_Mult_Decimal_Decimal_scale0_real", f"""
         let a = any_decimal_scale0(inp); let b = any_decimal_scale0(inp);
-        let r = {arm['fn']}({args});
+        let r = {callx};
         show("a", &a); show("b", &b); show("result", &r);
         assert!(matches!(&r, Ok(Value::Decimal(_))) || err_oob(&r));
         std::mem::forget(r);""", unwind=2, heavy=True, mandatory=False,
-                    meta={"node": "Mult", "function": arm["fn"], "class": "supported",
+                    meta={"node": "Mult", "function": arm_fn(arm), "class": "supported",
                           "note": "rust_decimal's real multiplication at scale 0, 96-bit mantissas: no panic, Decimal or out-of-bounds error"})
         h.variant, h.tags, h.spec = "Mult", ("Decimal", "Decimal"), Spec("", quick=False)
         hs.append(h)
         hs += decimal_checked_cells(run, arms)
     for variant, expr in (("Add", "ma + mb"), ("Sub", "ma - mb")):
         arm = arms[variant]
-        order = arg_order(arm, 2)
-        vals = ["Value::Decimal(a)", "Value::Decimal(b)"]
-        args = ", ".join(vals[order[i]] for i in range(2))
+        callx = apply(arm, ["Value::Decimal(a)", "Value::Decimal(b)"])
         full = f"if m > -{lim} && m < {lim} {{ matches!(&r, Ok(Value::Decimal(x)) if x.mantissa() == m && x.scale() == 0) }} else {{ err_oob(&r) }}"
         c01 = f"if m > -{lim} && m < {lim} {{ matches!(&r, Ok(Value::Decimal(x)) if x.mantissa() == m) }} else {{ is_err(&r) }}"
         body = f"""
         let a = any_decimal_scale0(inp); let b = any_decimal_scale0(inp);
         let ma = a.mantissa(); let mb = b.mantissa();
         let m: i128 = {expr};
-        let r = {arm['fn']}({args});
+        let r = {callx};
         show("a", &a); show("b", &b); show("result", &r);
         vcover!(!(m > -{lim} && m < {lim}), "overflow region");
         assert!({c01 if mode == 'c01' else full});
         std::mem::forget(r);"""
         h = Harness(f"{mode}_{variant}_Decimal_Decimal_scale0_real", body, unwind=2, heavy=True, mandatory=False,
-                    meta={"node": variant, "function": arm["fn"], "operands": {"a": "Decimal scale 0, 96-bit mantissa", "b": "same"},
+                    meta={"node": variant, "function": arm_fn(arm), "operands": {"a": "Decimal scale 0, 96-bit mantissa", "b": "same"},
                           "class": "supported", "note": "rust_decimal's real code (no stub) against i128 mantissa arithmetic"})
         h.variant, h.tags, h.spec = variant, ("Decimal", "Decimal"), Spec(full, quick=False)
         hs.append(h)
     for variant in ("GreaterThan", "LessThanEquals"):
         arm = arms[variant]
-        order = arg_order(arm, 2)
-        vals = ["Value::Decimal(a)", "Value::Decimal(b)"]
-        args = ", ".join(vals[order[i]] for i in range(2))
+        callx = apply(arm, ["Value::Decimal(a)", "Value::Decimal(b)"])
         body = f"""
         let a = any_decimal_scale0(inp); let b = any_decimal_scale0(inp);
-        let r = {arm['fn']}({args});
+        let r = {callx};
         show("a", &a); show("b", &b); show("result", &r);
         assert!(ok_bool(&r, a.mantissa() {ORDER[variant]} b.mantissa()));
         std::mem::forget(r);"""
         h = Harness(f"{mode}_{variant}_Decimal_Decimal_scale0_real", body, unwind=2, heavy=True, mandatory=False,
-                    meta={"node": variant, "function": arm["fn"], "class": "supported",
+                    meta={"node": variant, "function": arm_fn(arm), "class": "supported",
                           "note": "rust_decimal's real comparison at scale 0 against the order of the mantissas"})
         h.variant, h.tags, h.spec = variant, ("Decimal", "Decimal"), Spec("")
         if mode == "c02":
@@ -728,14 +734,11 @@ def int_arith_cells(run, arms, mode):
     hs = []
 
     def call(variant, x, y):
-        arm = arms[variant]
-        order = arg_order(arm, 2)
-        vals = [f"Value::Int({x})", f"Value::Int({y})"]
-        return f"{arm['fn']}(" + ", ".join(vals[order[i]] for i in range(2)) + ")"
+        return apply(arms[variant], [f"Value::Int({x})", f"Value::Int({y})"])
 
     def add(name, body, heavy=False, quick=True, mandatory=True, variant="Div", note=""):
         h = Harness(f"{mode}_{name}", body, heavy=heavy, mandatory=mandatory,
-                    meta={"node": variant, "function": arms[variant]["fn"], "class": "supported", "note": note})
+                    meta={"node": variant, "function": arm_fn(arms[variant]), "class": "supported", "note": note})
         h.variant, h.tags, h.spec = variant, ("Int", "Int"), Spec("", quick=quick, heavy=heavy)
         hs.append(h)
 
@@ -815,13 +818,11 @@ def decimal_checked_cells(run, arms):
            "Div": ("Decimal::MAX", "Decimal::ZERO"), "Rem": ("Decimal::MAX", "Decimal::ZERO")}
     for variant in ("Add", "Sub", "Mult", "Div", "Rem"):
         arm = arms[variant]
-        order = arg_order(arm, 2)
-        vals = ["Value::Decimal(a)", "Value::Decimal(b)"]
-        args = ", ".join(vals[order[i]] for i in range(2))
+        callx = apply(arm, ["Value::Decimal(a)", "Value::Decimal(b)"])
         body = f"""
         let a = any_decimal(inp); let b = any_decimal(inp);
         {PRE_DRAW}
-        let r = {arm['fn']}({args});
+        let r = {callx};
         assert!(rec_n() == 1 && rec_kind() < 10);
         assert!(matches!(&r, Ok(Value::Decimal(_))) || is_err(&r));
         std::mem::forget(r);"""
@@ -829,12 +830,12 @@ def decimal_checked_cells(run, arms):
         let a = any_decimal(inp); let b = any_decimal(inp);
         {PRE_DRAW}
         let (a, b) = ({ext[variant][0]}, {ext[variant][1]});
-        let r = {arm['fn']}({args});
+        let r = {callx};
         show("a", &a); show("b", &b); show("result", &r);
         assert!(is_err(&r));
         std::mem::forget(r);"""
         h = Harness(f"c01_{variant}_Decimal_Decimal_checked", body, stubs=DEC_ALL_ARITH_STUBS, native_body=native, abstract=True,
-                    meta={"node": variant, "function": arm["fn"], "class": "supported",
+                    meta={"node": variant, "function": arm_fn(arm), "class": "supported",
                           "note": "recorders: the operator function must use rust_decimal's checked_* entry point (the operator traits panic on "
                                   "overflow / zero divisor); replayed natively on the extreme operands"})
         h.variant, h.tags, h.spec = variant, ("Decimal", "Decimal"), Spec("")
